@@ -34,14 +34,28 @@ def run(ctx):
     ctx.check("header", wr, "REBASE_PLAN_VERSION" in norm(fw) and "REBASE_PLAN_VERSION" in norm(fr) and any(isinstance(n, ast.Raise) for n in walk_own(fr)), "both sides use REBASE_PLAN_VERSION and the reader refuses an unknown header")
     ctx.check("line-terminator", wr, any(call_attr(c) == "split" and call_recv(c) == "text" and const_value(c.args[0]) == b"\n" for c in calls_in(fr)) and all(b.endswith(b"\n") for b in wl if b"%d %s" in b or b == b"\n"), "lines are newline terminated and the reader splits on newline")
     ctx.check("revision-info-line", ww, b"%d %s\n" in wl, "line 2 is written as '<revno> <revid>'")
+    from ..astutil import bound_names, loop_targets
+
     splits = [(norm(c.func.value), [const_value(a) for a in c.args]) for c in calls_in(fr) if call_attr(c) == "split"]
-    ctx.check("revision-info-line", wr, ("lines[1]", [b" ", 1]) in splits and any(isinstance(s, ast.Assign) and norm(s.targets[0]) == "last_revision_info" and norm(s.value) == "(int(pts[0]), pts[1])" for s in walk_own(fr)), "line 2 is read as (int(first), rest) split on the first space", construct=str(splits))
+    # role binding: locals of the reader by what they hold
+    v_lines = bound_names(fr, lambda t, n: t == "text.split(b'\\n')")
+    ret = [r.value for r in walk_own(fr) if isinstance(r, ast.Return) and isinstance(r.value, ast.Tuple) and len(r.value.elts) == 2]
+    ok_bind = len(v_lines) == 1 and len(ret) == 1
+    LN = v_lines[0] if v_lines else "?"
+    v_info, v_map = (norm(e) for e in ret[0].elts) if ret else ("?", "?")
+    p1 = bound_names(fr, lambda t, n: t == f"{LN}[1].split(b' ', 1)")
+    ok1 = ok_bind and len(p1) == 1 and any(isinstance(s_, ast.Assign) and norm(s_.targets[0]) == v_info and norm(s_.value) == f"(int({p1[0]}[0]), {p1[0]}[1])" for s_ in walk_own(fr))
+    ctx.check("revision-info-line", wr, ok1, "line 2 is read as (int(first), rest) split on the first space", construct=str(splits))
     ctx.check("plan-lines", ww, b"%s %s" in wl and b" %s" in wl, "plan lines are 'old new' followed by ' parent' items")
-    ctx.check("plan-lines", wr, ("l", [b" "]) in splits and any(isinstance(s, ast.Assign) and norm(s.targets[0]) == "replace_map[pts[0]]" and norm(s.value) == "(pts[1], tuple(pts[2:]))" for s in walk_own(fr)), "plan lines are read as old -> (new, tuple(parents)) split on single spaces", construct=str(splits))
+    lt = loop_targets(fr, lambda t, n: t == f"{LN}[2:]")
+    LV = lt[0][0] if len(lt) == 1 else "?"
+    p2 = bound_names(fr, lambda t, n: t == f"{LV}.split(b' ')")
+    ok2 = ok_bind and len(p2) == 1 and any(isinstance(s_, ast.Assign) and norm(s_.targets[0]) == f"{v_map}[{p2[0]}[0]]" and norm(s_.value) == f"({p2[0]}[1], tuple({p2[0]}[2:]))" for s_ in walk_own(fr))
+    ctx.check("plan-lines", wr, ok2, "plan lines are read as old -> (new, tuple(parents)) split on single spaces", construct=str(splits))
     wloop = [n for n in walk_own(fw) if isinstance(n, ast.For)]
-    ctx.check("plan-lines", ww, len(wloop) == 1 and norm(wloop[0].iter) == "replace_map" and any(norm(s.value) == "replace_map[oldrev]" for s in walk_own(wloop[0]) if isinstance(s, ast.Assign)), "every entry of the replace map is written")
+    ctx.check("plan-lines", ww, len(wloop) == 1 and norm(wloop[0].iter) == "replace_map" and any(norm(s_.value) == f"replace_map[{norm(wloop[0].target)}]" for s_ in walk_own(wloop[0]) if isinstance(s_, ast.Assign)), "every entry of the replace map is written")
     rloop = [n for n in walk_own(fr) if isinstance(n, ast.For)]
-    ctx.check("plan-lines", wr, len(rloop) == 1 and norm(rloop[0].iter) == "lines[2:]", "every line after the two header lines is read")
+    ctx.check("plan-lines", wr, len(rloop) == 1 and norm(rloop[0].iter) == f"{LN}[2:]", "every line after the two header lines is read")
     # state file names
     cls = repo.cls(RB, "RebaseState1")
     uses = {}
